@@ -25,10 +25,13 @@ pub fn generate(seed: u64, run: u64, _tier: Tier, st: &mut Stats) -> StreamCase 
     let mut rs = Rng::fork(s, 3);
     // well-formed streams only (C10's quantifier); the only medium fault is truncation
     let max_records = if rw.chance(1, 10) { 200 } else { 40 };
+    // 1 run in 200: a wide stream — 700..1400 tiny records over a large id alphabet, split in few
+    // parts, so that id lists of several hundred entries meet in one merge
+    let wide = rw.chance(1, 200);
     let b = build(
         &mut rw,
         &mut rf,
-        &BuildOpts { max_records, confine: Confine::Payload, clean_pct: 100, foreign_pct: 0, storage: None, stats_swarm: true, soup_pct: 0 },
+        &BuildOpts { max_records, confine: Confine::Payload, clean_pct: 100, foreign_pct: 0, storage: None, stats_swarm: true, soup_pct: 0, wide_records: if wide { 700 } else { 0 } },
         st,
     );
     let mut medium = b.medium.bytes.clone();
@@ -48,7 +51,10 @@ pub fn generate(seed: u64, run: u64, _tier: Tier, st: &mut Stats) -> StreamCase 
     }
     let (buf_cap, msg_max) = draw_capacities(&mut rs, &medium, b.storage, 3);
     // history: split points, identities, merge order — all modulo-decoded, so any vector is valid
-    let parts = 1 + rs.below(8);
+    let parts = if wide { 2 + rs.below(2) } else { 1 + rs.below(8) };
+    if wide {
+        st.inc("wide_streams");
+    }
     let mut aux = vec![parts as u64];
     for _ in 1..parts {
         aux.push(rs.next_u64() >> 40);
